@@ -99,3 +99,58 @@ def c01(res, st, std_coq):
                        "distinct = distinct (entry, input)")
     res.assumptions += ["parser productions outside the expression fragment are sampled, not proved",
                         "derived fields (IntLiteral.Base, SetNoSkipRange.NoSkipRange, BadQueryExpr.Hint, BadNode range) are exempt from the field-use obligation"]
+
+
+def c18(res, st, std_coq):
+    std_coq(res, "C18", st, ("theories/GenChecks.v",))
+    if not (st["go"] and st["driver"]):
+        return
+    rnd = random.Random(res.seed)
+    info = gen_check(res, ("globals_ok",))
+    q = res.tier == "quick"
+    cases = gens.parser_cases(rnd, 300 if q else 5000, 100 if q else 2000, 60 if q else 1000)
+    cases += gens.sentence_cases(rnd, 600 if q else 10000)
+    rnd.shuffle(cases)
+    out = vlib.run_lines(vlib.HARNESS, ["c18", str(res.seed)], gens.case_lines(cases))
+    fails = [l for l in out if l.startswith("FAIL ")]
+    for l in fails[:10]:
+        f = l.split()
+        res.violation("result of a call depends on other calls / call order / concurrency: " + f[3],
+                      {"kind": "c18", "entry": f[1], "input_hex": f[2], "key": f[3]})
+    stat = [l for l in out if l.startswith("STAT")]
+    res.extra["impl_runs"] = stat[0] if stat else ""
+    # the same under the race detector (support only; needs cgo, so it is attempted and reported, never required)
+    race = {"attempted": False}
+    if True:
+        race = race_run(cases[:400])
+        if race.get("races"):
+            res.violation("data race reported by the Go race detector", {"kind": "c18-race", "report": race["report"][:1500]})
+    res.extra["race_detector"] = race
+    if res.broken:
+        # an obligation on the global-state summary broke: hammer the implementation harder for a concrete witness
+        more = gens.sentence_cases(rnd, 4000)
+        out2 = vlib.run_lines(vlib.HARNESS, ["c18", str(res.seed + 1)], gens.case_lines(more))
+        for l in [l for l in out2 if l.startswith("FAIL ")][:5]:
+            f = l.split()
+            res.violation("result of a call depends on other calls / call order / concurrency: " + f[3],
+                          {"kind": "c18", "entry": f[1], "input_hex": f[2], "key": f[3]})
+    res.add_cases(len(cases), len(set(cases)), [gens.case_lines(cases[:1]).strip()[:200]])
+    res.cov["rule"] = ("theorem: every schedule of every set of write-free calls (abstract machine); obligation: the regenerated summary of all "
+                       "package-level variables and write sites; support runs on the implementation: each input parsed repeatedly, in reversed "
+                       "order, after mutating previously returned ASTs, and by 8 goroutines in random order (results compared with the first "
+                       "sequential run); distinct = distinct (entry, input)")
+    res.assumptions += ["the Go memory model and aliasing through returned values are not modelled; the race detector run (thorough tier) and the "
+                        "mutate-after-return comparison are support, not proof",
+                        "the translator's syntactic write-site summary (assignments, ++/--, &x, append/copy/delete/sort on a package-level "
+                        "variable; shadowing treated conservatively) is trusted"]
+
+
+def race_run(cases):
+    env = dict(vlib.GOENV, CGO_ENABLED="1")
+    exe = os.path.join(vlib.BUILD, "harness-race")
+    p = vlib.sh(["go", "build", "-race", "-tags", "verif", "-o", exe, "."], cwd=os.path.join(vlib.ROOT, "harness"), env=env, timeout=900)
+    if p.returncode != 0:
+        return {"attempted": True, "built": False, "why": p.stderr.decode(errors="replace")[-300:]}
+    p = vlib.sh([exe, "c18", "7"], input=gens.case_lines(cases).encode(), timeout=1800)
+    err = p.stderr.decode(errors="replace")
+    return {"attempted": True, "built": True, "races": "DATA RACE" in err, "report": err[-2000:] if "DATA RACE" in err else "", "exit": p.returncode}
